@@ -1,0 +1,12 @@
+//go:build verif
+
+// Contracts for the gocv verifier (comment-only file; see /verif/DESIGN.md §4).
+package arbitrary
+
+// Exec (C03): the response, if one is produced, is the zone data's answer to the context's query.
+//@ func (a *Arbitrary) Exec [C03]
+//@   requires a != nil && a.m != nil && qCtx != nil && qCtx.query != nil
+//@   modifies *
+//@   ensures result == nil && calls(zoneReply) == 1 && arg(zoneReply, 0, 1) == old(qCtx.query)
+//@   ensures ret(zoneReply, 0) != nil ==> calls(SetResponse) == 1 && arg(SetResponse, 0, 0) == qCtx && arg(SetResponse, 0, 1) == ret(zoneReply, 0)
+//@   ensures ret(zoneReply, 0) == nil ==> calls(SetResponse) == 0
